@@ -218,6 +218,101 @@ def h_index_step():
     prove("3d_index_refused", False)
 
 
+# ---- G6 crop by region -----------------------------------------------------------------------------
+LIN = {"north_up": (10, 0, 0, -10), "mirrored": (-10, 0, 0, 10), "nonsquare": (F(1, 3), 0, 0, F(1, 4)),
+       "rot": (6, 8, 8, -6), "shear": (2, 1, 0, 3)}
+
+
+def setup_region():
+    setup()
+    from .c16 import setup_fakegeom
+
+    setup_fakegeom()
+
+
+def h_crop_region(lin, roi):
+    """gbox[region] with the region given as a BoundingBox / pixel-plane polygon / another GeoBox:
+    same grid, inside the image, covers region ∩ image, less than one pixel larger per side"""
+    from affine import Affine
+
+    import odc.geo.geobox as gbx
+    from odc.geo.geom import BoundingBox
+
+    a, b, d, e = LIN[lin]
+    c, f = Real("c"), Real("f")
+    A = Affine(rconst(a), rconst(b), c, rconst(d), rconst(e), f)
+    ny, nx = Int("ny", 1), Int("nx", 1)
+    g = gbx.GeoBox((ny, nx), A, "epsg:3857")
+    if roi == "bbox":
+        l, bt, w, h = Real("l"), Real("bt"), Real("w"), Real("h")
+        assume(And(w >= 0, h >= 0))
+        region = BoundingBox(l, bt, l + w, bt + h, "epsg:3857")
+        wpts = [(l, bt), (l, bt + h), (l + w, bt + h), (l + w, bt)]
+        ppts = [g.wld2pix(x, y) for x, y in wpts]
+    elif roi == "pixgeom":
+        ppts = [(Real(f"px{k}"), Real(f"py{k}")) for k in range(3)]
+        from .c16 import FakeGeometry
+
+        region = FakeGeometry(ppts + ppts[:1], None)
+    else:
+        c2, f2 = Real("c2"), Real("f2")
+        my, mx = Int("my", 1), Int("mx", 1)
+        other = gbx.GeoBox((my, mx), Affine(rconst(30), rconst(0), c2, rconst(0), rconst(-30), f2), "epsg:3857")
+        region = other
+        ppts = [g.wld2pix(*other.pix2wld(x, y)) for x, y in ((0, 0), (0, my), (mx, my), (mx, 0))]
+    xs, ys = [ex(p[0]) for p in ppts], [ex(p[1]) for p in ppts]
+    x0, x1, y0, y1 = symx.m_min(*xs), symx.m_max(*xs), symx.m_min(*ys), symx.m_max(*ys)
+    X0, X1, Y0, Y1 = symx.m_max(x0, 0), symx.m_min(x1, nx), symx.m_max(y0, 0), symx.m_min(y1, ny)
+    assume(And(X0 < X1, Y0 < Y1))  # the region's pixel-space box overlaps the image with positive area
+    r = g[region]
+    prove("same_grid", And(ex(r.affine.a) == ex(A.a), ex(r.affine.b) == ex(A.b), ex(r.affine.d) == ex(A.d), ex(r.affine.e) == ex(A.e)))
+    tx, ty = g.wld2pix(*r.pix2wld(0, 0))
+    tx, ty = ex(tx), ex(ty)
+    eps = F(1, 10**6) if symx.concrete_mode() else 0
+    if symx.concrete_mode():
+        prove("whole_pixel_shift", And(abs(tx - round(tx)) <= eps, abs(ty - round(ty)) <= eps))
+    else:
+        prove("whole_pixel_shift", And(tx == symx.s_floor(tx), ty == symx.s_floor(ty)))
+    rx, ry = r.shape.x, r.shape.y
+    prove("inside_image", And(-eps <= tx, tx + rx <= nx + eps, -eps <= ty, ty + ry <= ny + eps))
+    prove("covers_x", And(tx <= X0 + eps, X1 <= tx + rx + eps))
+    prove("covers_y", And(ty <= Y0 + eps, Y1 <= ty + ry + eps))
+    prove("tight_x", And(X0 - tx < 1 + eps, tx + rx - X1 < 1 + eps))
+    prove("tight_y", And(Y0 - ty < 1 + eps, ty + ry - Y1 < 1 + eps))
+    prove("crs_preserved", r.crs == g.crs)
+
+
+# ---- G9 small views --------------------------------------------------------------------------------
+def h_misc(lin):
+    """alignment (offset of pixel edges from the CRS origin, in [0,|res|)), aspect, is_empty/bool, width/height"""
+    from affine import Affine
+
+    import odc.geo.geobox as gbx
+
+    a, b, d, e = LIN[lin]
+    c, f = Real("c"), Real("f")
+    ny, nx = Int("ny", 0), Int("nx", 0)
+    g = gbx.GeoBox((ny, nx), Affine(rconst(a), rconst(b), c, rconst(d), rconst(e), f), None)
+    al = g.alignment
+    ax, ay = ex(al.x), ex(al.y)
+    eps = F(1, 10**6) if symx.concrete_mode() else 0
+    prove("alignment_range", And(0 <= ax, ax < abs(F(a)), 0 <= ay, ay < abs(F(e))))
+    # pixel edges: c + a*k; their offset from the origin modulo |a| is the alignment
+    k, m = Int("k"), Int("m")
+    ux, uy = ex(g.pix2wld(k, m))
+    qx, qy = (ux - ax) / abs(F(a)), (uy - ay) / abs(F(e))
+    if symx.concrete_mode():
+        prove("alignment_of_every_edge", And(abs(qx - round(qx)) <= eps, abs(qy - round(qy)) <= eps))
+    else:
+        prove("alignment_of_every_edge", And(qx == symx.s_floor(qx), qy == symx.s_floor(qy)))
+    prove("is_empty", bool(g.is_empty()) == bool(Or(ny == 0, nx == 0)))
+    prove("bool", bool(g) == (not bool(Or(ny == 0, nx == 0))))
+    prove("width_height", And(g.width == nx, g.height == ny, g.shape.y == ny, g.shape.x == nx))
+    if bool(ny > 0):
+        prove("aspect", ex(g.aspect) * ny == nx)
+    prove("dims_without_crs", g.dimensions == ("y", "x"))
+
+
 # ---- G7 operations ---------------------------------------------------------------------------------
 def h_pad():
     g, ny, nx = mk()
@@ -522,6 +617,17 @@ OBLIGATIONS = [
     Ob("G6_index_int", h_index_int, fixed(), descr="integer row / (row, col) index incl. negative: X[-1] is the last row",
        functions=("odc.geo.geobox.GeoBoxBase.compute_crop",), bounds="-n <= index < n", setup=setup),
     Ob("G6_index_step", h_index_step, fixed(), descr="step != 1 => NotImplementedError; 3-d index => ValueError", functions=("odc.geo.geobox.GeoBoxBase.compute_crop",), setup=setup),
+    Ob("G6_crop_region", h_crop_region,
+       tiered([dict(lin=a, roi=b) for a, b in (("north_up", "bbox"), ("rot", "bbox"), ("mirrored", "pixgeom"), ("nonsquare", "geobox"), ("shear", "pixgeom"))],
+              [dict(lin=a, roi=b) for a in LIN for b in ("bbox", "pixgeom", "geobox")]),
+       descr="gbox[BoundingBox | pixel-plane polygon | GeoBox]: same grid and CRS, inside the image, covers region-box ∩ image, < 1 pixel larger per side",
+       functions=("odc.geo.geobox.GeoBoxBase.compute_crop", "odc.geo.geobox.GeoBoxBase.project", "odc.geo.geom.BoundingBox.round", "odc.geo.geom.bbox_intersection", "odc.geo.roi.roi_normalise"),
+       bounds="linear part from 5 families (north-up, mirrored, non-square fractional, rotated 6-8-10, sheared), origin/shape/region symbolic; region overlaps the image with positive area",
+       stubs=("vertex-list FakeGeometry in place of the shapely-backed Geometry (transform per vertex, bounds = min/max)",), setup=setup_region),
+    Ob("G9_alignment_misc", h_misc, fixed(*[dict(lin=a) for a in ("north_up", "mirrored", "nonsquare")]),
+       descr="alignment lies in [0,|res|) and is the offset of every pixel edge from the origin modulo |res|; aspect, is_empty, bool, width/height, default dims",
+       functions=("odc.geo.geobox.GeoBoxBase.alignment", "odc.geo.geobox.GeoBoxBase.is_empty", "odc.geo.geobox.GeoBoxBase.aspect", "odc.geo.geobox.GeoBoxBase.dimensions"),
+       bounds="axis-aligned linear part from 3 families; origin and shape (>= 0) symbolic", setup=setup),
     Ob("G7_pad", h_pad, fixed(), descr="pad", functions=("odc.geo.geobox.GeoBox.pad",), setup=setup),
     Ob("G7_pad_wh", h_pad_wh, fixed(dict(ax=16, ay=16), dict(ax=3, ay=7)), descr="pad_wh: same grid, aligned shape, minimal growth", functions=("odc.geo.geobox.GeoBox.pad_wh",), setup=setup),
     Ob("G7_crop_expand", h_crop_expand, fixed(), descr="crop/expand keep the grid", functions=("odc.geo.geobox.GeoBox.crop",), setup=setup),
